@@ -254,6 +254,11 @@ def run(oc, tier, seed, model_available, escalate):
             continue
         k = P.k_of_rate(P.ri)
         pl = P.mbs - k
+        erasure_run = (it % 3 == 2) and P.algo in (3, 4)
+        if erasure_run:
+            # correction with --enable_erasures: symbols overwritten by the erasure symbol (null) count once, other wrong symbols twice
+            P.erasures, P.erasure_symbol = True, 0
+            oc.count("end-to-end: metadata erasures (--enable_erasures)")
         for (s, e) in eu.entry_bounds(bytes(data)):
             f = eu.parse_entry(bytes(data), s, e)
             for fld, eccf in (("path", "path_ecc"), ("size", "size_ecc")):
@@ -262,6 +267,20 @@ def run(oc, tier, seed, model_available, escalate):
                 nb = (b - a + k - 1) // k
                 for bi in range(nb):
                     cand = list(range(a + bi * k, min(b, a + (bi + 1) * k))) + list(range(ea + bi * pl, min(eb, ea + (bi + 1) * pl)))
+                    if erasure_run:
+                        nat = sum(1 for i in cand if data[i] == 0)
+                        budget = pl - nat
+                        if budget <= 0:
+                            continue
+                        nerr = rng.choice([0, 0, 1]) if budget >= 3 else 0
+                        nf = rng.choice([budget - 2 * nerr, (budget - 2 * nerr) // 2, rng.randint(0, budget - 2 * nerr)])
+                        free = [i for i in cand if data[i] != 0]
+                        chosen = rng.sample(free, min(nf + nerr, len(free)))
+                        for i in chosen[:nerr]:
+                            data[i] = rng.choice([x for x in (ord("x"), 0x39, 0x41) if x != data[i]])
+                        for i in chosen[nerr:]:
+                            data[i] = 0
+                        continue
                     for i in rng.sample(cand, min(rng.choice([0, pl // 2, rng.randint(0, pl // 2)]), len(cand))):
                         data[i] = rng.choice([x for x in (ord("x"), 0x39, 0x41, data[i] ^ 1) if x != data[i]])
         if eu.accidental(bytes(data), len(tree)):
